@@ -812,6 +812,7 @@ resource_name = (
 parameter_text = Regex("[a-zA-Z0-9_+.]+").setName("parameter_text")
 percent_encoding = Regex("%[0-9a-fA-F][0-9a-fA-F]").setName("percent_encoding")
 parse_query = Forward()
+link_query = Forward()
 
 tilde_entity = (
     Literal("~~").setParseAction(lambda s, loc, toks: ["~"]).setName("tilde_entity")
@@ -864,7 +865,7 @@ def _expand_entity_parse_action(s, loc, toks):
 
 
 expand_entity = (
-    (Literal("~X~").suppress() + parse_query + end_entity.suppress())
+    (Literal("~X~").suppress() + link_query + end_entity.suppress())
     .setParseAction(_expand_entity_parse_action)
     .setName("expand_entity")
 )
@@ -1093,6 +1094,9 @@ resource_transform_query = (
     .setParseAction(_resource_transform_query_action)
     .setName("resource_transform_query")
 )
+
+
+link_query << ((resource_transform_query + FollowedBy(end_entity)) | parse_query)
 
 
 def parse(query):
